@@ -51,7 +51,7 @@ TResp      == /\ Ev("resp")
                  \/ E.code = 503 /\ RespFault(Me)
               /\ Seen
 TFlushB    == /\ Ev("flush.b")
-              /\ \/ D_flush(Me) /\ held[Me] = E.item
+              /\ \/ D_flush(Me) /\ Victim(Me) = E.item
                  \/ X_flush(Me) /\ cur[hkey'[Me]] = E.item
               /\ Seen
 TFlushE    == Ev("flush.e") /\ (D_flushed(Me) \/ X_flushed(Me)) /\ Seen
